@@ -77,6 +77,7 @@ package home
 //@   property C14
 //@   trusted-ensures keeps-accounts: globalContext.firstRun == old(globalContext.firstRun) && globalContext.auth == old(globalContext.auth) && globalContext.auth.users == old(globalContext.auth.users) && config == old(config) && (forall k int :: 0 <= k && k < len(globalContext.auth.users) ==> globalContext.auth.users[k].Name == old(globalContext.auth.users[k].Name))
 //@   requires !held(c.RWMutex) && !rheld(c.RWMutex)
+//@   requires globalContext.auth != nil ==> !held(globalContext.auth.lock)
 //@   modifies *
 //@   callsite github.com/google/renameio/v2/maybe.WriteFile(filename, data, perm) requires filename == configFilePath()
 
@@ -261,8 +262,9 @@ package home
 //@   callsite dyncall(w2, r2) requires !authRequired || p == "/login.html" || isPublicResource(p) || !lastThird
 
 // No login is demanded only for a GL-inet token, a live session cookie, or correct basic credentials.
+// (C12: a request passes on a cookie only through checkSession - the one place that compares the expiry with the clock.)
 //@ func optionalAuthThird(w http.ResponseWriter, r *http.Request) (mustAuth bool)
-//@   property C11
+//@   property C11, C12
 //@   requires !held(globalContext.auth.lock)
 //@   modifies *
 //@   ensures authenticated-or-refused: !mustAuth ==> lastGL || lastSessRes == 0 || lastUserOK
@@ -315,6 +317,15 @@ package home
 //@   ensures failed-unchanged: err != nil ==> a.users == old(a.users)
 //@   ensures u.Name == old(u.Name) && !held(a.lock)
 //@   modifies a.users, elems(a.users), u.PasswordHash
+// The configuration writer takes the accounts it persists from usersList: every account of the running process must be
+// in the list, or the next start runs without accounts and every endpoint answers without credentials.  (Only the
+// length is decided: copy of struct elements is over-approximated by the generator.)
+//@ func (a *Auth) usersList() (users []webUser)
+//@   property C11
+//@   requires !held(a.lock)
+//@   ensures every-account-is-listed: len(users) == old(len(a.users))
+//@   ensures !held(a.lock)
+//@   modifies nothing
 //@ func (a *Auth) removeUser(login string)
 //@   property C11
 //@   requires !held(a.lock)
@@ -339,6 +350,14 @@ package home
 //@   requires globalContext.auth != nil && !held(globalContext.auth.lock)
 //@   requires !held(config.RWMutex) && !rheld(config.RWMutex)
 //@   ensures no-account-left-while-installation-is-open: globalContext.firstRun ==> len(globalContext.auth.users) <= old(len(globalContext.auth.users))
+//@   modifies *
+
+// The login limiter exists whenever it is configured - whether or not an account exists yet (the first account is created
+// later in the same process by the installation wizard).
+//@ func initUsers() (auth *Auth, err error)
+//@   property C12
+//@   callsites-only
+//@   callsite github.com/AdguardTeam/AdGuardHome/internal/home.InitAuth(fn, users, ttl, rl, tp) requires limiter-whenever-configured: config.AuthAttempts > 0 && config.AuthBlockMin > 0 ==> rl != nil
 //@   modifies *
 
 // ---- C12 (continued): sessions ----
